@@ -223,6 +223,8 @@ func checkC16(c *Ctx) {
 	r.Rule("R16c-panic", "no panic/log.Fatal/os.Exit on a path that depends on a well-formed request", 2)
 	r.Rule("R16c-nil", "every dereference of Field.Message/Enum/Oneof is dominated by a guard establishing it is non-nil", 30)
 	r.Rule("R16c-index", "constant indexes into descriptor-derived slices are dominated by a length / IsMap guard", 5)
+	r.Rule("R16c-errpair", "a pointer returned together with an error is not dereferenced on a path on which that error is known to be non-nil", 9)
+	errPairedValueUse(c, "R16c-errpair")
 
 	// ---- R16a
 	for _, comp := range c.sccs() {
@@ -1066,4 +1068,207 @@ func (c *Ctx) submatchGuard(pk *packages.Package, info *types.Info, body *ast.Bl
 		return ""
 	}
 	return fmt.Sprintf("element of %s.%s on %s (%d capture groups): every match has %d entries", "regexp", cal.Name(), rv.Name(), re.NumSubexp(), re.NumSubexp()+1)
+}
+
+// errPairedValueUse — R16c-errpair. For `x, err := f(…)` with x a pointer (or interface / map / slice / func) and err an
+// error, Go's convention is that x is meaningless (nil) when err != nil. On the go/cfg graph of the function, every path is
+// followed from the assignment; passing the true arm of `err != nil` (false arm of `err == nil`) makes the error known
+// non-nil, the other arm known nil; a path ends where err or x is assigned again. A dereferencing use of x (method call,
+// field selection, *x, index) reached while the error is known non-nil is a crash on exactly the requests the error reports —
+// for the plugins' main functions that is a panic instead of an error response.
+func errPairedValueUse(c *Ctx, rid string) {
+	r := c.R
+	n := 0
+	for fn, decl := range c.P.Decls {
+		if decl.Body == nil || !isRepoGenPkg(fn) && !strings.Contains(fn.Pkg().Path(), "/cmd/") {
+			continue
+		}
+		if strings.HasSuffix(c.P.Pos(decl.Pos()), "_test.go") || strings.Contains(c.P.Pos(decl.Pos()), "_test.go:") {
+			continue
+		}
+		info := c.P.DeclPkg[fn].TypesInfo
+		type pair struct {
+			x, err types.Object
+			as    *ast.AssignStmt
+		}
+		var pairs []pair
+		ast.Inspect(decl.Body, func(nd ast.Node) bool {
+			if _, isLit := nd.(*ast.FuncLit); isLit {
+				return false
+			}
+			as, ok := nd.(*ast.AssignStmt)
+			if !ok || len(as.Lhs) != 2 || len(as.Rhs) != 1 {
+				return true
+			}
+			if _, isCall := ast.Unparen(as.Rhs[0]).(*ast.CallExpr); !isCall {
+				return true
+			}
+			xi, ok1 := as.Lhs[0].(*ast.Ident)
+			ei, ok2 := as.Lhs[1].(*ast.Ident)
+			if !ok1 || !ok2 || xi.Name == "_" || ei.Name == "_" {
+				return true
+			}
+			xo, eo := info.ObjectOf(xi), info.ObjectOf(ei)
+			if xo == nil || eo == nil || !isErrorType(eo.Type()) {
+				return true
+			}
+			switch xo.Type().Underlying().(type) {
+			case *types.Pointer, *types.Interface, *types.Map, *types.Signature:
+				pairs = append(pairs, pair{xo, eo, as})
+			}
+			return true
+		})
+		if len(pairs) == 0 {
+			continue
+		}
+		g := buildCFG(decl.Body)
+		for _, p := range pairs {
+			n++
+			// block and index of the assignment
+			var start *cfg.Block
+			startIdx := -1
+			for _, b := range g.Blocks {
+				for i, nd := range b.Nodes {
+					if nd == ast.Node(p.as) {
+						start, startIdx = b, i
+					}
+				}
+			}
+			if start == nil {
+				continue // assignment in an init clause etc.: go/cfg keeps it as a node; if not found, not decided here
+			}
+			// does node assign x or err?
+			reassigns := func(nd ast.Node) bool {
+				hit := false
+				ast.Inspect(nd, func(m ast.Node) bool {
+					if as, ok := m.(*ast.AssignStmt); ok {
+						for _, l := range as.Lhs {
+							if id, ok := l.(*ast.Ident); ok {
+								if o := info.ObjectOf(id); o == p.x || o == p.err {
+									hit = true
+								}
+							}
+						}
+					}
+					return !hit
+				})
+				return hit
+			}
+			derefUse := func(nd ast.Node) ast.Node {
+				var at ast.Node
+				ast.Inspect(nd, func(m ast.Node) bool {
+					if at != nil {
+						return false
+					}
+					if _, isLit := m.(*ast.FuncLit); isLit {
+						return false
+					}
+					var base ast.Expr
+					switch x := m.(type) {
+					case *ast.SelectorExpr:
+						base = x.X
+					case *ast.StarExpr:
+						base = x.X
+					case *ast.IndexExpr:
+						base = x.X
+					}
+					if id, ok := ast.Unparen(base).(*ast.Ident); base != nil && ok && info.ObjectOf(id) == p.x {
+						if _, isPtr := p.x.Type().Underlying().(*types.Pointer); isPtr {
+							at = m
+						} else if _, isIface := p.x.Type().Underlying().(*types.Interface); isIface {
+							at = m
+						}
+					}
+					return true
+				})
+				return at
+			}
+			// condition classification: +1 cond true means err != nil, -1 cond true means err == nil, 0 unrelated
+			condKind := func(e ast.Expr) int {
+				be, ok := ast.Unparen(e).(*ast.BinaryExpr)
+				if !ok || (be.Op != token.NEQ && be.Op != token.EQL) {
+					return 0
+				}
+				var other ast.Expr
+				if id, ok := ast.Unparen(be.X).(*ast.Ident); ok && info.ObjectOf(id) == p.err {
+					other = be.Y
+				} else if id, ok := ast.Unparen(be.Y).(*ast.Ident); ok && info.ObjectOf(id) == p.err {
+					other = be.X
+				}
+				if other == nil || !isNilIdent(other) {
+					return 0
+				}
+				if be.Op == token.NEQ {
+					return 1
+				}
+				return -1
+			}
+			type st struct {
+				b     *cfg.Block
+				state int // 0 unknown, 1 err non-nil, -1 err nil
+			}
+			seen := map[st]bool{}
+			var bad ast.Node
+			var walk func(b *cfg.Block, from int, state int)
+			walk = func(b *cfg.Block, from int, state int) {
+				if bad != nil {
+					return
+				}
+				if from == 0 {
+					k := st{b, state}
+					if seen[k] {
+						return
+					}
+					seen[k] = true
+				}
+				for i := from; i < len(b.Nodes); i++ {
+					nd := b.Nodes[i]
+					if state == 1 {
+						if u := derefUse(nd); u != nil {
+							bad = u
+							return
+						}
+					}
+					if reassigns(nd) {
+						return
+					}
+				}
+				if len(b.Succs) == 2 && len(b.Nodes) > 0 {
+					if cond, ok := b.Nodes[len(b.Nodes)-1].(ast.Expr); ok {
+						switch condKind(cond) {
+						case 1:
+							if state != -1 {
+								walk(b.Succs[0], 0, 1)
+							}
+							if state != 1 {
+								walk(b.Succs[1], 0, -1)
+							}
+							return
+						case -1:
+							if state != 1 {
+								walk(b.Succs[0], 0, -1)
+							}
+							if state != -1 {
+								walk(b.Succs[1], 0, 1)
+							}
+							return
+						}
+					}
+				}
+				for _, s := range b.Succs {
+					walk(s, 0, state)
+				}
+			}
+			walk(start, startIdx+1, 0)
+			key := fmt.Sprintf("%s: %s is not dereferenced where its error is non-nil", FuncName(fn), p.x.Name())
+			if bad != nil {
+				r.Bad(rid, key, c.P.Pos(bad.Pos()), fmt.Sprintf("%s uses %s (%s) on a path on which the error returned together with it (%s, assigned at %s) is known to be non-nil: the value is nil there, so the plugin crashes with a nil dereference instead of answering with the error", FuncName(fn), p.x.Name(), types.ExprString(bad.(ast.Expr)), p.err.Name(), c.P.Pos(p.as.Pos())), nil)
+			} else {
+				r.OK(rid, key, c.P.Pos(p.as.Pos()))
+			}
+		}
+	}
+	if n == 0 {
+		r.Unres(rid, "value/error pairs in generator packages", "", "none found")
+	}
 }
